@@ -575,7 +575,7 @@ def check_C19(tier, replay=None):
     c = cfg("MCSpec", {"NotForwarded": "{}"}, invariants=["TransparentWhenForwarding", "Emit"])
     res, vocab, cases, _ = mc_run(R, "MC_C19", c, "MC_C19", workers=4)
     # vacuity guard: with any one channel not forwarded the model must find a non-transparent value
-    for ch in ("ser", "check", "attrs", "check_memo"):
+    for ch in ("ser", "check", "attrs", "attrs_ns", "check_memo"):
         c2 = cfg("MCSpec", {"NotForwarded": '{"%s"}' % ch}, invariants=["TransparentBroken"])
         r2 = z.tlc(os.path.join(z.SPEC, "mc", "MC_C19.tla"), c2.replace("TransparentBroken", "TransparentAlways"), workers=2, timeout=300, name="MC_C19_no_" + ch)
         if r2["ok"]:
@@ -643,6 +643,8 @@ def check_CR(prop, tier, rule, text_assume, known_devs=(), level="model_checking
             v2, k2, s2, d2 = trace_run(R, "Trace_CR", tcfg2, gen_traces, "T_CR_C05reader")
             R.viol += v2
             R.extra["reader_level_traces"] = len(gen_traces)
+    if prop in CR_HOOKS:
+        CR_HOOKS[prop](R)
     R.extra["pipeline"] = {k: v for k, v in stats.items() if k != "mc"}
     R.samples = [{"label": c["label"], "kind": c["kind"], "structs": len(c["expect"]), "ops": len(c["ops"])} for c in cases[:4]]
     if level == "other":
@@ -650,11 +652,46 @@ def check_CR(prop, tier, rule, text_assume, known_devs=(), level="model_checking
     return finish(R, level, rule, text_assume)
 
 
+CR_HOOKS = {}
 CR_ASSUME = ["concretiser; syn-based abstraction; driver synthesiser (lib/crpipe.py); token table (Rust literal, XSD lexical form) of MC_CR", "rustc, yaserde 0.12", "TLC"]
 
 
+def c01_wide(R, tier="thorough"):
+    """C01 over the schema sets of the other bounded instances, through generator and rustc: the recursive slice in the
+    quick tier, a sample of all of them in the thorough tier"""
+    import crpipe
+    plan = [("c02rec", "MC_C02", {"Slice": '"recursive"'}, ["Emit"], 1)] if tier == "quick" else [("c02pos", "MC_C02", {"Slice": '"positions"'}, ["Emit"], 6), ("c02rec", "MC_C02", {"Slice": '"recursive"'}, ["Emit"], 1),
+            ("c02top", "MC_C02", {"Slice": '"toplevel"'}, ["Emit"], 2), ("c02hom", "MC_C02", {"Slice": '"homonym"'}, ["Emit"], 1),
+            ("c02nest", "MC_C02", {"Slice": '"nested"'}, ["Emit"], 4),
+            ("c08", "MC_C08", {"MaxDepth": "2", "Kinds": "<- AllKindsX"}, ["Emit"], 12), ("c09", "MC_C09", {}, ["Emit"], 5)]
+    sources = []
+    for k, (label, module, consts, invs, stride) in enumerate(plan):
+        c = cfg("MCSpec", dict(consts, Dev="{}"), invariants=invs)
+        res, vocab, cases, _ = mc_run(R, module, c, "C01x_" + label, workers=4)
+        cases = cases[::stride]
+        for i, cs in enumerate(cases):
+            cs["id"] = (k + 1) * 100000 + i + 1
+            cs["label"] = label
+            cs["prop"] = "C01"
+        sources.append((label, vocab, cases))
+    total = 0
+    for label, vocab, cases, events in crpipe.compile_only("c01x", sources):
+        traces = crpipe.write_traces("C01x_" + label, vocab, cases, {str(k): v for k, v in events.items()}, shards=min(4, len(cases)))
+        dev = [d for d in z.dev_set() if d in ("D31",)]
+        viol, known, stale, _ = trace_run(R, "Trace_C01x", cfg("TraceSpec", {"Dev": tla_set(dev)}, post="Accepted"), traces, "T_C01x_" + label)
+        R.viol += viol
+        R.stale += stale
+        for kn in known:
+            for d in (kn.get("devs") or ["?"]):
+                R.known.setdefault(d, kn)
+        R.cases += cases
+        total += len(cases)
+    R.extra["wide_compile_cases"] = total
+
+
 def check_C01(tier, replay=None):
-    return check_CR("C01", tier, "schema sets of MC_CR (27 builtins required/repeated, member positions, extension near/far, restricted simple types, keyword names; WSDLs plain / with headers / one-way / three name styles / imported body element): each is generated by the real code and the emitted file is compiled as a module of a crate whose only dependencies are yaserde, yaserde_derive, xml-rs, log, reqwest and tokio", CR_ASSUME)
+    CR_HOOKS["C01"] = lambda R: c01_wide(R, tier)
+    return check_CR("C01", tier, "schema sets of MC_CR (27 builtins required/repeated, member positions, extension near/far, restricted simple types, keyword names; WSDLs plain / with headers / one-way / three name styles / imported body element): each is generated by the real code and the emitted file is compiled as a module of a crate whose only dependencies are yaserde, yaserde_derive, xml-rs, log, reqwest and tokio; in addition the schema sets of the other bounded instances go through generator and rustc (quick: the 18 recursive sets of MC_C02; thorough: about 900 sets sampled from MC_C02 positions / nested / toplevel / homonym / recursive, MC_C08 and MC_C09), judged by Trace_C01x against Schema!ByValueCycle", CR_ASSUME)
 
 
 def check_C03(tier, replay=None):
